@@ -155,7 +155,10 @@ func main() {
 	for i := rlo; i < rhi; i++ {
 		raceCase(i, args, args.CaseRand(1_000_000+i), v)
 	}
-	for _, k := range []string{"released_from_queue", "expired_in_queue", "rejected_full", "held_across_rollover", "race_released_after_its_ttl_fired"} {
+	plo, phi := args.Share(args.Pick(240, 4000))
+	pluginCases(args, v, plo, phi)
+	sim.GlobalSink.Drain()
+	for _, k := range []string{"released_from_queue", "expired_in_queue", "rejected_full", "held_across_rollover", "race_released_after_its_ttl_fired", "plugin_first_request_rounds"} {
 		if v.Counters[k] == 0 {
 			v.Inconclude("batch never observed " + k)
 		}
